@@ -150,8 +150,8 @@ pub fn spec() -> PropSpec {
             Family { name: "stale-queue", f: fam_stale_queue, weight: 10 },
             Family { name: "blocked", f: fam_blocked, weight: 10 },
         ],
-        quick_worlds: 30_000,
-        thorough_worlds: 600_000,
+        quick_worlds: 120_000,
+        thorough_worlds: 1_200_000,
         panic_is_violation: true,
         rule: "each world = seeded datagram applications on both peers (sizes 0, 1, small, medium, max-1, max, max+1, far too large, around the send buffer; drop=true/false; bursts at drawn instants; slow readers) next to stream traffic, under drawn datagram_send/receive_buffer_size values of both peers (including disabled and tiny), loss / duplication / reordering, link-MTU changes, migration and congestion-limited senders; non-trivial = a fault fired or >1 connection; distinct = distinct abstract-event signature",
         assumptions: vec![
